@@ -334,42 +334,51 @@ func c11ClientTransportsAs(c *Ctx, rule string) {
 		})
 		return found
 	}
-	for _, ci := range callsTo(lg, modPath+"/cmd/rdpgw/transport.NewLegacy") {
-		tr := resultOf(ci, 0)
-		// which leg? the transport stored into transportIn (here, or by a helper it is handed to) is the IN leg
-		isIn := storedInto(lg, tr, inF)
-		for _, x := range callsIn(lg) {
-			callee := x.Common().StaticCallee()
-			if callee == nil || !IsFirstParty(callee) {
-				continue
-			}
-			for i, a := range x.Common().Args {
-				if strip(a) == tr && i < len(callee.Params) && storedInto(callee, callee.Params[i], inF) {
-					isIn = true
+	// the legacy handler itself, or the helpers only it calls (openLegacyOut / serveLegacyIn)
+	var legacyFns []*ssa.Function
+	for _, f := range c.allFirstPartyFuncs() {
+		if f == lg || f.Parent() == nil && c.onlyCalledFrom(f, lg, 0) {
+			legacyFns = append(legacyFns, f)
+		}
+	}
+	for _, lf := range legacyFns {
+		for _, ci := range callsTo(lf, modPath+"/cmd/rdpgw/transport.NewLegacy") {
+			tr := resultOf(ci, 0)
+			// which leg? the transport stored into transportIn (here, or by a helper it is handed to) is the IN leg
+			isIn := storedInto(lf, tr, inF)
+			for _, x := range callsIn(lf) {
+				callee := x.Common().StaticCallee()
+				if callee == nil || !IsFirstParty(callee) {
+					continue
+				}
+				for i, a := range x.Common().Args {
+					if strip(a) == tr && i < len(callee.Params) && storedInto(callee, callee.Params[i], inF) {
+						isIn = true
+					}
 				}
 			}
-		}
-		if !isIn {
-			continue // OUT leg: owned by the tunnel, closed when the IN leg's loop ends (below)
-		}
-		// after the error test: first instruction dominated by the success edge — take the store / defer that uses tr
-		var first ssa.Instruction
-		for _, b := range lg.DomPreorder() {
-			for _, in := range b.Instrs {
-				if first == nil && usesValue(in, tr) {
-					first = in
+			if !isIn {
+				continue // OUT leg: owned by the tunnel, closed when the IN leg's loop ends (below)
+			}
+			// after the error test: first instruction dominated by the success edge — take the store / defer that uses tr
+			var first ssa.Instruction
+			for _, b := range lf.DomPreorder() {
+				for _, in := range b.Instrs {
+					if first == nil && usesValue(in, tr) {
+						first = in
+					}
 				}
 			}
+			ok := false
+			if d, isDefer := first.(*ssa.Defer); isDefer && isCloseOn(d, func(v ssa.Value) bool { return strip(v) == tr }) {
+				ok = true
+			} else if first != nil {
+				ok, _ = releasedOnAllExits(lf, first, func(x ssa.CallInstruction) bool {
+					return isCloseOn(x, func(v ssa.Value) bool { return strip(v) == tr })
+				})
+			}
+			c.Check(ok, rule, "handleLegacyProtocol in-conn", ci.Pos(), "the hijacked RDG_IN_DATA connection is closed on every exit", "the hijacked RDG_IN_DATA connection is not closed on every exit")
 		}
-		ok := false
-		if d, isDefer := first.(*ssa.Defer); isDefer && isCloseOn(d, func(v ssa.Value) bool { return strip(v) == tr }) {
-			ok = true
-		} else if first != nil {
-			ok, _ = releasedOnAllExits(lg, first, func(x ssa.CallInstruction) bool {
-				return isCloseOn(x, func(v ssa.Value) bool { return strip(v) == tr })
-			})
-		}
-		c.Check(ok, rule, "handleLegacyProtocol in-conn", ci.Pos(), "the hijacked RDG_IN_DATA connection is closed on every exit", "the hijacked RDG_IN_DATA connection is not closed on every exit")
 	}
 	// when the loop ends, the OUT transport of this tunnel is closed: on all exits after Process, or by
 	// a defer before it — in the function that runs the loop, or in its only caller after the helper returns
@@ -412,6 +421,44 @@ func c11ClientTransportsAs(c *Ctx, rule string) {
 		for _, ci := range callsTo(fn, "(*"+protoPkg+".Processor).Process") {
 			nProc++
 			c.Check(closedAfter(fn, ci.(ssa.Instruction), 0), rule, "handleLegacyProtocol out-transport", ci.Pos(), "the tunnel's RDG_OUT_DATA connection is closed whenever the packet loop ends", "the hijacked RDG_OUT_DATA connection is not closed on every way the packet loop ends (e.g. only on error, not on an orderly channel close)")
+		}
+	}
+	if nProc == 0 {
+		// the packet loop may be run by a helper both handlers share (serveTunnel): the call of that
+		// helper in the legacy handler stands for the loop
+		procName := "(*" + protoPkg + ".Processor).Process"
+		var runsLoop func(f *ssa.Function, depth int) bool
+		runsLoop = func(f *ssa.Function, depth int) bool {
+			if f == nil || f.Blocks == nil || depth > 2 {
+				return false
+			}
+			for _, ci := range callsIn(f) {
+				if _, isCall := ci.(*ssa.Call); !isCall {
+					continue
+				}
+				if calleeName(ci) == procName {
+					return true
+				}
+				if h := ci.Common().StaticCallee(); h != nil && IsFirstParty(h) && runsLoop(h, depth+1) {
+					return true
+				}
+			}
+			return false
+		}
+		for _, fn := range c.allFirstPartyFuncs() {
+			if fn != lg && !c.onlyCalledFrom(fn, lg, 0) {
+				continue
+			}
+			for _, ci := range callsIn(fn) {
+				call, isCall := ci.(*ssa.Call)
+				if !isCall {
+					continue
+				}
+				if h := call.Call.StaticCallee(); h != nil && IsFirstParty(h) && runsLoop(h, 0) {
+					nProc++
+					c.Check(closedAfter(fn, call, 0), rule, "handleLegacyProtocol out-transport", call.Pos(), "the tunnel's RDG_OUT_DATA connection is closed whenever the packet loop ends", "the hijacked RDG_OUT_DATA connection is not closed on every way the packet loop ends (e.g. only on error, not on an orderly channel close)")
+				}
+			}
 		}
 	}
 	if nProc == 0 {
@@ -478,8 +525,8 @@ func c11Registry(c *Ctx) {
 		return k
 	}
 	c.Check(keyOf(reg) != "" && keyOf(reg) == keyOf(rem), rule, "registry key", reg.Pos(), "registered and removed under the same key (Tunnel."+keyOf(reg)+")", fmt.Sprintf("RegisterTunnel stores under Tunnel.%s but RemoveTunnel deletes Tunnel.%s", keyOf(reg), keyOf(rem)))
-	if n < 2 {
-		c.Undecided(rule, "RegisterTunnel sites", token.NoPos, "%d sites (2 confirmed by hand)", n)
+	if n < 1 {
+		c.Undecided(rule, "RegisterTunnel sites", token.NoPos, "%d sites (two on the pinned tree, one when both handlers share a helper)", n)
 	}
 }
 
@@ -494,6 +541,10 @@ func c11Gauges(c *Ctx) {
 			}
 			g, ok := globalLoad(strip(call.Call.Value))
 			if !ok {
+				continue
+			}
+			// a counter only ever goes up: nothing to pair (only gauges count things that are held)
+			if !typeIs(call.Call.Value.Type(), "github.com/prometheus/client_golang/prometheus", "Gauge") {
 				continue
 			}
 			n++
@@ -560,63 +611,94 @@ func returnsResultOf(helper *ssa.Function, call *ssa.Call, idx int) bool {
 func c11FramerBounded(c *Ctx) {
 	rule := "C11/framer-bounded"
 	fn := c.Fn("cmd/rdpgw/protocol", "readMessage")
-	var rp *ssa.Call
+	// read sites: the instructions of readMessage that read the transport — ReadPacket itself, or a
+	// call of a helper (only readMessage calls it) that does
+	var sites []*ssa.Call
+	readsTransport := func(f *ssa.Function) bool {
+		for _, ci := range callsIn(f) {
+			if ci.Common().IsInvoke() && ci.Common().Method.Name() == "ReadPacket" {
+				return true
+			}
+		}
+		return false
+	}
 	for _, ci := range callsIn(fn) {
-		if ci.Common().IsInvoke() && ci.Common().Method.Name() == "ReadPacket" {
-			rp, _ = ci.(*ssa.Call)
+		call, ok := ci.(*ssa.Call)
+		if !ok {
+			continue
+		}
+		if call.Call.IsInvoke() && call.Call.Method.Name() == "ReadPacket" {
+			sites = append(sites, call)
+			continue
+		}
+		if h := call.Call.StaticCallee(); h != nil && IsFirstParty(h) && h.Blocks != nil && readsTransport(h) {
+			sites = append(sites, call)
 		}
 	}
-	if rp == nil {
+	if len(sites) == 0 {
 		c.Missing("ReadPacket call in readMessage")
 	}
-	// a transport read error leaves the framer: from the edge on which ReadPacket's error is
-	// non-nil, ReadPacket is not reached again (an error that is skipped keeps a dead or
-	// unframeable connection's tunnel, backend and registry entry alive for ever)
+	reachesRead := func(from *ssa.BasicBlock, g Guard) bool {
+		for _, s := range sites {
+			if reachFromWithoutMarkerAvoiding(from, s, noMarker, g) {
+				return true
+			}
+		}
+		return false
+	}
+	// a transport read error leaves the framer: from the edge on which the read's error is non-nil,
+	// no read site is reached again (an error that is skipped keeps a dead or unframeable
+	// connection's tunnel, backend and registry entry alive for ever)
 	{
-		rpErr := resultOf(rp, errIndex(rp))
-		tested, again := false, false
-		for _, b := range fn.Blocks {
-			if len(b.Instrs) == 0 || rpErr == nil {
-				continue
+		tested, again := true, false
+		for _, rp := range sites {
+			ei := errIndex(rp)
+			var rpErr ssa.Value
+			if ei >= 0 {
+				rpErr = resultOf(rp, ei)
 			}
-			ifi, ok := b.Instrs[len(b.Instrs)-1].(*ssa.If)
-			if !ok || !rp.Block().Dominates(b) {
-				continue
-			}
-			for i, succ := range b.Succs {
-				if GNeq(isVal(rpErr), anyNil)(ifi.Cond, i == 0) {
-					tested = true
-					if reachFromWithoutMarkerAvoiding(succ, rp, noMarker, nil) {
-						again = true
+			t := false
+			for _, b := range fn.Blocks {
+				if len(b.Instrs) == 0 || rpErr == nil {
+					continue
+				}
+				ifi, ok := b.Instrs[len(b.Instrs)-1].(*ssa.If)
+				if !ok || !rp.Block().Dominates(b) {
+					continue
+				}
+				for i, succ := range b.Succs {
+					if GNeq(isVal(rpErr), anyNil)(ifi.Cond, i == 0) {
+						t = true
+						if reachesRead(succ, nil) {
+							again = true
+						}
 					}
 				}
 			}
+			if !t {
+				tested = false
+			}
 		}
 		if !tested {
-			c.Bad(rule, "readMessage read-error", rp.Pos(), "the error of Transport.ReadPacket is not tested in readMessage")
+			c.Bad(rule, "readMessage read-error", sites[0].Pos(), "the error of Transport.ReadPacket is not tested in readMessage")
 		} else {
-			c.Check(!again, rule, "readMessage read-error", rp.Pos(), "a failed Transport.ReadPacket ends readMessage: the read is not retried", "after Transport.ReadPacket failed readMessage reads again: a transport whose error is sticky (chunked reader, closed websocket) makes the packet loop spin and nothing the tunnel holds is released")
+			c.Check(!again, rule, "readMessage read-error", sites[0].Pos(), "a failed Transport.ReadPacket ends readMessage: the read is not retried", "after Transport.ReadPacket failed readMessage reads again: a transport whose error is sticky (chunked reader, closed websocket) makes the packet loop spin and nothing the tunnel holds is released")
 		}
 	}
 	n := 0
 	for _, ci := range callsTo(fn, protoPkg+".readHeader") {
 		rh := ci.(*ssa.Call)
-		// the continuation attempt: its argument is built by append (pending fragment + new read)
-		isCont := false
-		for _, o := range origins(arg(rh, 0)) {
-			if o.Kind == "call" {
-				if b, ok := o.Call.Common().Value.(*ssa.Builtin); ok && b.Name() == "append" {
-					isCont = true
-				}
-			}
-		}
+		// the continuation attempt: its argument is built by append (pending fragment + new read); when
+		// one readHeader call serves both attempts (its argument is a phi), the attempt is the
+		// continuation on the paths on which the condition that selects the append holds
+		isCont, selects := continuationArg(arg(rh, 0))
 		if !isCont {
 			continue
 		}
 		n++
 		errV := resultOf(rh, 3)
 		szV := resultOf(rh, 1)
-		// edges taken when the continuation failed to frame; from there ReadPacket must be unreachable
+		// edges taken when the continuation failed to frame; from there no read site may be reachable
 		// unless a constant upper bound on the declared size was tested on the way
 		bound := GCmp(func(x ssa.Value, op token.Token, y ssa.Value) bool {
 			if sameValueModConv(x, szV) {
@@ -629,6 +711,9 @@ func c11FramerBounded(c *Ctx) {
 			}
 			return false
 		})
+		if selects != nil {
+			bound = GOr(bound, selects)
+		}
 		loops := false
 		for _, b := range fn.Blocks {
 			if len(b.Instrs) == 0 {
@@ -640,7 +725,7 @@ func c11FramerBounded(c *Ctx) {
 			}
 			for i, succ := range b.Succs {
 				if GNeq(isVal(errV), anyNil)(ifi.Cond, i == 0) {
-					if reachFromWithoutMarkerAvoiding(succ, rp, noMarker, bound) {
+					if reachesRead(succ, bound) {
 						loops = true
 					}
 				}
@@ -651,4 +736,53 @@ func c11FramerBounded(c *Ctx) {
 	if n == 0 {
 		c.Undecided(rule, "readMessage continuation", fn.Pos(), "no readHeader call on a joined fragment found")
 	}
+}
+
+// continuationArg: v is the argument of a readHeader call that parses a joined fragment: an
+// append(pending, new...), or a phi one of whose incoming values is such an append. For the phi
+// form, notCont is the guard "the edge establishes that this is NOT the continuation" (the branch
+// condition that selects the append is false), to be cut when only continuation paths are meant.
+func continuationArg(v ssa.Value) (isCont bool, notCont Guard) {
+	isAppend := func(x ssa.Value) bool {
+		for _, o := range origins(x) {
+			if o.Kind == "call" {
+				if b, ok := o.Call.Common().Value.(*ssa.Builtin); ok && b.Name() == "append" {
+					return true
+				}
+			}
+		}
+		return false
+	}
+	phi, ok := strip(v).(*ssa.Phi)
+	if !ok {
+		return isAppend(v), nil
+	}
+	for i, e := range phi.Edges {
+		if !isAppend(e) {
+			continue
+		}
+		// the predecessor that carries the append: entered from a block whose branch selects it
+		pred := phi.Block().Preds[i]
+		if len(pred.Preds) != 1 {
+			return true, nil
+		}
+		sel := pred.Preds[0]
+		ifi, ok := sel.Instrs[len(sel.Instrs)-1].(*ssa.If)
+		if !ok {
+			return true, nil
+		}
+		core, neg := normCond(ifi.Cond)
+		onTrue := sel.Succs[0] == pred
+		// the append is taken when core == (onTrue != neg)
+		want := onTrue != neg
+		return true, func(cond ssa.Value, branch bool) bool {
+			c2, n2 := normCond(cond)
+			if c2 != core {
+				return false
+			}
+			val := branch != n2 // value of core on this edge
+			return val != want
+		}
+	}
+	return false, nil
 }
